@@ -1,4 +1,5 @@
 import Driver.Ops
 import Driver.State
 import Driver.Typed
+import Driver.Upd
 import Driver.All
